@@ -559,6 +559,8 @@ class SortedConfigParser(ConfigParser):
             ConfigParser.__init__(self, *args, **kwargs)
         else:
             kwargs["dict_type"] = SortedDict
+            # values are plain text; '%' must not trigger interpolation
+            kwargs.setdefault("interpolation", None)
             super(SortedConfigParser, self).__init__(*args, **kwargs)
         self.seen = set()
 
